@@ -363,3 +363,9 @@ def unit_test(case):
         "    cur += len(b.raw)\n"
         "assert text[cur:].strip() == ''\n"
     )
+
+
+def ENV_SHARDS(tier):
+    """The broad, cheap families: run again in a fresh interpreter per environment (engine.run_environments)."""
+    return [s for s in shards('quick') if s[0] in ("ext", "mini", "dev", "layout", "longcomment")]
+
